@@ -7,6 +7,7 @@
         delivered once, nothing is pending and the send buffer size is zero
    C05  on an ideal network the global submission order is preserved and every packet that
         is not TimeSensitive is delivered
+   C04  every delivered payload is byte-identical to the submitted one (reassembly exact)
    C11  probes submitted after a fault phase are delivered (TimeSensitive: or never sent)
 
    The monitor is total: it consumes every well-formed line and records violations in
@@ -67,6 +68,8 @@ Deliver ==
        /\ bad' = bad
             \cup (IF ~known THEN Flag("C01", "unknown-payload") ELSE {})
             \cup (IF known /\ ~Cur.match THEN Flag("C01", "altered-payload") ELSE {})
+            \cup (IF ~known \/ ~Cur.match THEN Flag("C04", "reassembled-payload-differs-from-submitted") ELSE {})
+            \cup (IF known /\ Cur.match /\ Cur.len # s.len THEN Flag("C04", "reassembled-length-differs") ELSE {})
             \cup (IF known /\ s.ep # from THEN Flag("C01", "wrong-endpoint") ELSE {})
             \cup (IF known /\ u \in seen THEN Flag("C01", "delivered-twice") ELSE {})
             \cup (IF right /\ u \notin seen /\ u < lastOnCh[from][s.ch] THEN Flag("C01", "out-of-order-on-channel") ELSE {})
@@ -135,5 +138,6 @@ C01 == Holds("C01")
 C02 == Holds("C02")
 C05 == Holds("C05")
 C11 == Holds("C11")
+C04 == Holds("C04")
 C02Safety == AtEnd => \A b \in bad : ~(b[1] = "C02" /\ b[2] = "reliable-skipped")
 ====================================================================================
